@@ -18,8 +18,18 @@ self.chipset.<m>, super(..).<m>) is done here along the class hierarchy of that 
   calls of translated functions         -> Call
   everything on the PURE lists          -> Skip
 
-Implicit exceptions of Python operations (subscripts, tuple unpacking, struct.unpack, int()) are NOT
-represented: that part of the property is carried by the fault-injection runs only.
+Implicit exceptions of operations on HOST DATA are represented conservatively.  The extractor follows
+values that derive from a host response (result of transport.read / read_frame / socket.recvfrom,
+results of the translated functions that return such data, slices, copies and concatenations of them)
+with a small shape analysis (known minimal / maximal length, int-or-sequence for read_register, path
+sensitive over the guards it recognises: `if not x`, `if x`, len(x) < <= > >= == != constant,
+len(x) against len(self.CONST) / len(*args), `<host number> == len(x) - K`, isinstance(x, int),
+and / or / not / conditional expressions, `del x[0:K]`, early raise / return / never-returning callee).
+Every constant subscript, tuple unpacking, struct.unpack and iteration on such a value becomes a
+Prim "implicit ..." raising IndexError / ValueError / StructError / TypeError UNLESS the shape analysis
+proves it safe in every environment; what it cannot prove is listed in the generated file and breaks
+the closure obligation.  Not covered: None-ness of values, arithmetic exceptions, dictionary lookups,
+indices that are not compile time constants on data that is not host data.
 
 The extractor FAILS CLOSED: an ast node type, a called name, a method called on a value, an except
 clause or an errno test that is not on one of the explicit lists raises SkelError; kernels.py then
@@ -234,12 +244,123 @@ class World(object):
         return None
 
 
+# ---------------------------------------------------------------- shape descriptors (implicit-raise analysis)
+# What is known about a value that derives from a host response.  None = not tracked (not host data).
+#   ('seq', lo, hi)     host derived sequence of lo..hi elements (hi None = unbounded; lo/hi may be the symbol
+#                       'N' = number of *args of the enclosing function)
+#   ('cseq', lo, hi)    sequence of known shape that is not host data (constants, values built from them)
+#   ('tuple', (d, ..))  tuple/list display with known element descriptors
+#   ('int',)            a number taken out of a host response
+#   ('ios', lo, hi)     an int or a sequence (read_register: int for one register, list otherwise)
+#   ('frameobj',)       an rcs380.Frame built from host data (its .data attribute is host data)
+TOPSEQ = ('seq', 0, None)
+INT = ('int',)
+FRAMEOBJ = ('frameobj',)
+
+
+def seqlen(d):
+    """(lo, hi) of a sequence-like descriptor, or None"""
+    if d is None:
+        return None
+    if d[0] in ('seq', 'cseq', 'ios'):
+        return d[1], d[2]
+    if d[0] == 'tuple':
+        return len(d[1]), len(d[1])
+    return None
+
+
+def jmin(a, b):      # for lower bounds
+    if a == b:
+        return a
+    if 'N' in (a, b):
+        return 0
+    return min(a, b)
+
+
+def jmax(a, b):      # for upper bounds (None = infinite)
+    if a == b:
+        return a
+    if a is None or b is None or 'N' in (a, b):
+        return None
+    return max(a, b)
+
+
+def join(a, b):
+    if a == b:
+        return a
+    if a is None:
+        return b
+    if b is None:
+        return a
+    if a[0] == 'frameobj' or b[0] == 'frameobj':
+        return TOPSEQ
+    la, lb = seqlen(a), seqlen(b)
+    if la is not None and lb is not None:
+        kind = 'ios' if 'ios' in (a[0], b[0]) else ('seq' if 'seq' in (a[0], b[0]) else
+                                                     ('cseq' if a[0] == b[0] == 'cseq' else 'seq'))
+        return (kind, jmin(la[0], lb[0]), jmax(la[1], lb[1]))
+    if a[0] == 'int' and b[0] == 'int':
+        return INT
+    other = la or lb
+    return ('ios', other[0], other[1])
+
+
+def inst(d, n):
+    """replace the symbol N (number of *args) by the number of arguments at a call site (None = unknown)"""
+    if d is None or d[0] not in ('seq', 'cseq', 'ios') or 'N' not in (d[1], d[2]):
+        return d
+    if d[0] == 'ios' and n == 1 and d[1] == 'N' and d[2] == 'N':
+        return INT
+    lo = (n if n is not None else 0) if d[1] == 'N' else d[1]
+    hi = n if d[2] == 'N' else d[2]
+    if d[0] == 'ios' and n is not None and n != 1 and d[1] == 'N' and d[2] == 'N':
+        return ('seq', lo, hi)
+    return (d[0], lo, hi)
+
+
+def freeze(env):
+    return tuple(sorted(env.items()))
+
+
+def norm(envs, cap=24):
+    seen, out = set(), []
+    for e in envs:
+        k = freeze(e)
+        if k not in seen:
+            seen.add(k)
+            out.append(e)
+    if len(out) > cap:
+        keys = set()
+        for e in out:
+            keys |= set(e)
+        j = {}
+        for k in keys:
+            if all(k in e for e in out):
+                d = out[0][k]
+                for e in out[1:]:
+                    d = join(d, e[k]) if e[k] is not None and d is not None else None
+                if d is not None:
+                    j[k] = d
+        out = [j]
+    return out
+
+
+NEG = {'<': '>=', '<=': '>', '>': '<=', '>=': '<', '==': '!=', '!=': '=='}
+FLIP = {'<': '>', '<=': '>=', '>': '<', '>=': '<=', '==': '==', '!=': '!='}
+OPS = {ast.Lt: '<', ast.LtE: '<=', ast.Gt: '>', ast.GtE: '>=', ast.Eq: '==', ast.NotEq: '!='}
+MUTATORS = {'append', 'extend', 'insert', 'pop', 'remove', 'clear', 'reverse', 'sort'}
+SAME_SHAPE_FUNCS = {'bytearray', 'bytes', 'memoryview', 'list', 'tuple', 'reversed', 'sorted'}
+
+
 class FuncCtx(object):
     def __init__(self, tr, modname, selfkey, defkey, qual, node):
         self.tr, self.modname, self.selfkey, self.defkey, self.qual, self.node = tr, modname, selfkey, defkey, qual, node
         self.handler_names = []          # stack of names bound by enclosing except clauses
         self.nested = {}                 # nested function name -> qualified name
         self.aliases = {}                # local name -> set of self.device method names
+        self.callinfo = {}               # id(ast.Call) -> (name, return descriptor, noreturn)
+        self.rets = []                   # descriptors of returned values
+        self.vararg = node.args.vararg.arg if getattr(node, 'args', None) is not None and node.args.vararg else None
 
 
 class Translator(object):
@@ -247,36 +368,90 @@ class Translator(object):
 
     def __init__(self, world, driver, devkey, chipkey):
         self.w, self.driver, self.devkey, self.chipkey = world, driver, devkey, chipkey
-        self.funcs = {}          # qualified name -> stmt
-        self.todo = []
+        self.funcs = {}          # skeleton function name -> stmt (None while being translated)
+        self.memo = {}           # (qualified name, argument descriptors) -> [name, return descriptor, noreturn]
         self.assumptions = []
+        self.unproven = []       # implicit-raise sites that no recognised guard protects
+        self.proven = 0          # ... and the number of those that are protected
 
-    # ---- naming / scheduling
-    def want_method(self, selfkey, defkey, node):
-        key = '%s.%s.%s' % (defkey[0], defkey[1], node.name)
-        if key not in self.funcs:
-            self.funcs[key] = None
-            self.todo.append((key, defkey[0], selfkey, defkey, node))
-        return key
+    # ---- translation of one function in one calling context
+    def analyse(self, qual, modname, selfkey, defkey, node, argdescs=None):
+        """returns [skeleton name, return descriptor, noreturn]"""
+        argdescs = dict((k, v) for k, v in (argdescs or {}).items() if v is not None)
+        key = (qual, freeze(argdescs))
+        if key in self.memo:
+            return self.memo[key]
+        n = sum(1 for k in self.memo if k[0] == qual)
+        name = qual if n == 0 else '%s#%d' % (qual, n + 1)
+        rec = [name, None, False]     # while in progress (recursion): nothing known about the result
+        self.memo[key] = rec
+        self.funcs[name] = None
+        ctx = FuncCtx(self, modname, selfkey, defkey, name, node)
+        skel, _out = self.body(ctx, node.body, [dict(argdescs)])
+        self.funcs[name] = skel
+        ret = None
+        for d in ctx.rets:
+            ret = join(ret, d)
+        rec[1] = ret
+        rec[2] = not self.may_normal(skel) and not self.may_return(skel)
+        return rec
 
-    def want_function(self, modname, node):
-        key = '%s.%s' % (modname, node.name)
-        if key not in self.funcs:
-            self.funcs[key] = None
-            self.todo.append((key, modname, None, None, node))
-        return key
+    def method_rec(self, selfkey, defkey, node, argdescs=None):
+        return self.analyse('%s.%s.%s' % (defkey[0], defkey[1], node.name), defkey[0], selfkey, defkey, node, argdescs)
+
+    def function_rec(self, modname, node, argdescs=None):
+        return self.analyse('%s.%s' % (modname, node.name), modname, None, None, node, argdescs)
+
+    def may_normal(self, s):
+        k = s[0]
+        if k in ('Skip', 'Prim', 'Loop'):
+            return True
+        if k in ('Return', 'Break', 'Raise', 'Reraise'):
+            return False
+        if k == 'Seq':
+            return self.may_normal(s[1]) and self.may_normal(s[2])
+        if k == 'Choice':
+            return self.may_normal(s[1]) or self.may_normal(s[2])
+        if k == 'IfErrno':
+            return self.may_normal(s[2]) or self.may_normal(s[3])
+        if k == 'Try':
+            return self.may_normal(s[1]) or any(self.may_normal(h) for _p, h in s[2])
+        if k == 'Finally':
+            return self.may_normal(s[1]) and self.may_normal(s[2])
+        if k == 'Call':
+            for rec in self.memo.values():
+                if rec[0] == s[1]:
+                    return not rec[2]
+            return True
+        raise SkelError('internal: ' + repr(k))
+
+    def may_return(self, s):
+        k = s[0]
+        if k in ('Return', 'Break'):
+            return True
+        if k in ('Skip', 'Prim', 'Raise', 'Reraise', 'Call'):
+            return False
+        if k == 'Seq':
+            return self.may_return(s[1]) or (self.may_normal(s[1]) and self.may_return(s[2]))
+        if k == 'Choice':
+            return self.may_return(s[1]) or self.may_return(s[2])
+        if k == 'Loop':
+            return self.may_return(s[1])
+        if k == 'IfErrno':
+            return self.may_return(s[2]) or self.may_return(s[3])
+        if k == 'Try':
+            return self.may_return(s[1]) or any(self.may_return(h) for _p, h in s[2])
+        if k == 'Finally':
+            return self.may_return(s[1]) or self.may_return(s[2])
+        raise SkelError('internal: ' + repr(k))
 
     def run(self):
         fe = self.w.mods['__init__'].classes['ContactlessFrontend']
         ex = [n for n in fe.body if isinstance(n, ast.FunctionDef) and n.name == 'exchange']
         if len(ex) != 1:
             raise SkelError('ContactlessFrontend.exchange not found')
-        self.funcs['Frontend.exchange'] = None
-        self.todo.append(('Frontend.exchange', '__init__', ('__init__', 'ContactlessFrontend'), ('__init__', 'ContactlessFrontend'), ex[0]))
-        while self.todo:
-            key, modname, selfkey, defkey, node = self.todo.pop(0)
-            ctx = FuncCtx(self, modname, selfkey, defkey, key, node)
-            self.funcs[key] = self.body(ctx, node.body)
+        key = ('__init__', 'ContactlessFrontend')
+        self.analyse('Frontend.exchange', '__init__', key, key, ex[0])
         return self.funcs
 
     # ---- exception class resolution
@@ -302,58 +477,485 @@ class Translator(object):
             return int.from_bytes(node.value, 'little')      # rcs380 CommunicationError(b'\0\0\0\0')
         return None
 
-    # ---- expressions: the calls they make, in evaluation order
-    def eff(self, ctx, e):
+    # ================================================================ shapes of host data
+    def class_const_len(self, ctx, attr):
+        """length of a class level bytes constant (self.ACK, self.SOF)"""
+        if ctx.selfkey is None:
+            return None
+        for k in self.w.mro(ctx.selfkey):
+            for n in self.w.cls(k).body:
+                if isinstance(n, ast.Assign) and len(n.targets) == 1 and dotted(n.targets[0]) == attr:
+                    v = n.value
+                    if isinstance(v, ast.Constant) and isinstance(v.value, (bytes, str)):
+                        return len(v.value)
+                    if isinstance(v, ast.Call) and dotted(v.func) == 'bytearray.fromhex' and len(v.args) == 1 \
+                            and isinstance(v.args[0], ast.Constant) and isinstance(v.args[0].value, str):
+                        return len(bytes.fromhex(v.args[0].value))
+                    if isinstance(v, ast.Call) and dotted(v.func) in ('bytearray', 'bytes') and len(v.args) == 1 \
+                            and isinstance(v.args[0], ast.Constant) and isinstance(v.args[0].value, bytes):
+                        return len(v.args[0].value)
+                    return None
+        return None
+
+    def const_int(self, ctx, e, env):
+        """an integer the extractor can evaluate: literal, len(self.CONST), len(<display>), sums; 'N' for len(*args)"""
+        if isinstance(e, ast.Constant) and isinstance(e.value, int) and not isinstance(e.value, bool):
+            return e.value
+        if isinstance(e, ast.UnaryOp) and isinstance(e.op, ast.USub):
+            v = self.const_int(ctx, e.operand, env)
+            return -v if isinstance(v, int) else None
+        if isinstance(e, ast.Call) and dotted(e.func) == 'len' and len(e.args) == 1:
+            a = e.args[0]
+            if isinstance(a, ast.Name) and ctx.vararg and a.id == ctx.vararg:
+                return 'N'
+            d = dotted(a)
+            if d and d.startswith('self.') and d.count('.') == 1:
+                return self.class_const_len(ctx, d[5:])
+            sd = self.desc(ctx, a, env)
+            ln = seqlen(sd)
+            if ln and ln[0] == ln[1] and isinstance(ln[0], int) and sd[0] != 'ios':
+                return ln[0]
+            return None
+        if isinstance(e, ast.BinOp) and isinstance(e.op, (ast.Add, ast.Sub)):
+            a, b = self.const_int(ctx, e.left, env), self.const_int(ctx, e.right, env)
+            if isinstance(a, int) and isinstance(b, int):
+                return a + b if isinstance(e.op, ast.Add) else a - b
+        return None
+
+    def tracked_names(self, e, env):
+        return any(isinstance(n, ast.Name) and env.get(n.id) is not None for n in ast.walk(e))
+
+    def slice_desc(self, ctx, d, sl, env):
+        r = self.slice_desc0(ctx, d, sl, env)
+        return ('cseq', r[1], r[2]) if d[0] in ('cseq', 'tuple') else r
+
+    def slice_desc0(self, ctx, d, sl, env):
+        ln = seqlen(d)
+        if ln is None:
+            return TOPSEQ
+        lo, hi = ln
+        if sl.step is not None:
+            st = self.const_int(ctx, sl.step, env)
+            if st in (1, -1) and sl.lower is None and sl.upper is None:
+                return ('seq', lo, hi)
+            return ('seq', 0, hi)
+        a = 0 if sl.lower is None else self.const_int(ctx, sl.lower, env)
+        b = None if sl.upper is None else self.const_int(ctx, sl.upper, env)
+        if sl.upper is not None and b == 'N' and a == 0:
+            return ('seq', 'N' if lo == 'N' else 0, 'N')
+        if 'N' in (lo, hi):
+            lo, hi = (0 if lo == 'N' else lo), (None if hi == 'N' else hi)
+        if not isinstance(a, int) or a < 0 or (sl.upper is not None and not isinstance(b, int)):
+            return ('seq', 0, hi)
+        if b is None:
+            return ('seq', max(0, lo - a), None if hi is None else max(0, hi - a))
+        if b >= 0:
+            return ('seq', max(0, min(lo, b) - a), max(0, (b if hi is None else min(hi, b)) - a))
+        return ('seq', max(0, lo + b - a), None if hi is None else max(0, hi + b - a))
+
+    def desc(self, ctx, e, env):
+        """descriptor of expression e in environment env (None: not host data / nothing known)"""
+        t = type(e)
+        if t is ast.Name:
+            return env.get(e.id)
+        if t is ast.Constant:
+            if isinstance(e.value, (bytes, str)):
+                return ('cseq', len(e.value), len(e.value))
+            return None
+        if t in (ast.Tuple, ast.List):
+            if any(isinstance(x, ast.Starred) for x in e.elts):
+                return TOPSEQ if self.tracked_names(e, env) else None
+            return ('tuple', tuple(self.desc(ctx, x, env) for x in e.elts))
+        if t is ast.IfExp:
+            a = [self.desc(ctx, e.body, en) for en in self.refine(ctx, e.test, [env], True)]
+            b = [self.desc(ctx, e.orelse, en) for en in self.refine(ctx, e.test, [env], False)]
+            out, first = None, True
+            for d in a + b:
+                out = d if first else (join(out, d) if (out is not None and d is not None) else (out or d))
+                first = False
+            return out
+        if t is ast.Attribute:
+            d = dotted(e)
+            if d and d.startswith('self.') and d.count('.') == 1:
+                n = self.class_const_len(ctx, d[5:])
+                return ('cseq', n, n) if n is not None else None
+            base = self.desc(ctx, e.value, env)
+            if base == FRAMEOBJ and e.attr == 'data':
+                return TOPSEQ
+            return None
+        if t is ast.Subscript:
+            base = self.desc(ctx, e.value, env)
+            if base is None:
+                return None
+            if isinstance(e.slice, ast.Slice):
+                if base[0] == 'int':
+                    return None
+                return self.slice_desc(ctx, base, e.slice, env)
+            i = self.const_int(ctx, e.slice, env)
+            if base[0] == 'tuple' and isinstance(i, int) and -len(base[1]) <= i < len(base[1]):
+                return base[1][i]
+            return INT if base[0] in ('seq', 'ios') else None
+        if t is ast.BinOp and isinstance(e.op, ast.Add):
+            a, b = self.desc(ctx, e.left, env), self.desc(ctx, e.right, env)
+            la, lb = seqlen(a), seqlen(b)
+            if la is None and lb is None:
+                return None
+            host = 'seq' if ((a is not None and a[0] in ('seq', 'ios')) or (b is not None and b[0] in ('seq', 'ios'))) else 'cseq'
+            if la is not None and lb is not None and 'N' not in la + lb:
+                return (host, la[0] + lb[0], None if None in (la[1], lb[1]) else la[1] + lb[1])
+            known = la or lb
+            return (host, known[0] if isinstance(known[0], int) else 0, None)
+        if t is ast.Call:
+            f = dotted(e.func)
+            if id(e) in ctx.callinfo:
+                return ctx.callinfo[id(e)][1]
+            if f in ('self.transport.read', 'self.read_frame') or f == 'self.tty.read':
+                return TOPSEQ
+            if f == 'self.socket.recvfrom':
+                return ('tuple', (TOPSEQ, None))
+            if f in SAME_SHAPE_FUNCS and len(e.args) == 1:
+                d = self.desc(ctx, e.args[0], env)
+                if d is None:
+                    return None
+                ln = seqlen(d)
+                if d[0] == 'ios' or ln is None:
+                    return TOPSEQ
+                host = 'cseq' if (d[0] == 'cseq' or (d[0] == 'tuple' and not any(x is not None for x in d[1]))) else 'seq'
+                return (host, ln[0], ln[1])
+            if f == 'unhexlify' and e.args:
+                return TOPSEQ if self.desc(ctx, e.args[0], env) is not None else None
+            if isinstance(e.func, ast.Attribute) and e.func.attr in ('split', 'strip', 'decode', 'upper', 'lower', 'join'):
+                if self.desc(ctx, e.func.value, env) is not None or any(self.desc(ctx, a, env) is not None for a in e.args):
+                    return TOPSEQ
+            return None
+        if t in (ast.ListComp, ast.GeneratorExp):
+            return TOPSEQ if self.tracked_names(e, env) else None
+        return None
+
+    # ---- guards
+    def set_len(self, env, name, op, k):
+        """environment env refined by len(name) op k; returns None if that is impossible"""
+        d = env.get(name)
+        if d is None or d[0] not in ('seq', 'cseq', 'ios', 'tuple'):
+            return env
+        lo, hi = seqlen(d)
+        kind = 'cseq' if d[0] == 'tuple' else d[0]
+        if k == 'N':
+            if op == '>=':
+                lo = 'N'
+            elif op == '<=':
+                hi = 'N'
+            elif op == '==':
+                lo = hi = 'N'
+            else:
+                return env
+        else:
+            if 'N' in (lo, hi):
+                if op == '==':
+                    lo, hi = k, k
+                else:
+                    return env
+            elif op == '<':
+                hi = k - 1 if hi is None else min(hi, k - 1)
+            elif op == '<=':
+                hi = k if hi is None else min(hi, k)
+            elif op == '>':
+                lo = max(lo, k + 1)
+            elif op == '>=':
+                lo = max(lo, k)
+            elif op == '==':
+                lo, hi = max(lo, k), (k if hi is None else min(hi, k))
+            elif op == '!=':
+                if lo == hi == k:
+                    return None
+                return env
+            if hi is not None and (hi < 0 or lo > hi):
+                return None
+        out = dict(env)
+        out[name] = (kind, lo, hi)
+        return out
+
+    def len_of_name(self, e):
+        if isinstance(e, ast.Call) and dotted(e.func) == 'len' and len(e.args) == 1 and isinstance(e.args[0], ast.Name):
+            return e.args[0].id
+        return None
+
+    def nonneg_host_number(self, e):
+        """expressions known to be >= 0: an element of a byte string, unpack()[0] of an unsigned format"""
+        if isinstance(e, ast.Subscript) and not isinstance(e.slice, ast.Slice):
+            if isinstance(e.value, ast.Call) and dotted(e.value.func) in ('unpack', 'struct.unpack'):
+                fmt = e.value.args[0] if e.value.args else None
+                return isinstance(fmt, ast.Constant) and isinstance(fmt.value, str) and fmt.value.strip('<>=!@').isupper()
+            return isinstance(e.value, ast.Name)
+        if isinstance(e, ast.BinOp) and isinstance(e.op, ast.Add):
+            return all(self.nonneg_host_number(x) or (isinstance(x, ast.Constant) and isinstance(x.value, int) and x.value >= 0)
+                       for x in (e.left, e.right))
+        return False
+
+    def refine(self, ctx, test, envs, truth):
+        """environments in which `test` evaluates to `truth`"""
+        t = type(test)
+        if t is ast.UnaryOp and isinstance(test.op, ast.Not):
+            return self.refine(ctx, test.operand, envs, not truth)
+        if t is ast.BoolOp:
+            conj = isinstance(test.op, ast.And)
+            if conj == truth:            # all operands `truth`
+                for v in test.values:
+                    envs = self.refine(ctx, v, envs, truth)
+                return envs
+            out, cur = [], envs          # first operand that is `truth` decides
+            for v in test.values:
+                out += self.refine(ctx, v, cur, truth)
+                cur = self.refine(ctx, v, cur, not truth)
+            return norm(out)
+        if t is ast.Name:
+            out = []
+            for env in envs:
+                d = env.get(test.id)
+                if d is None or d[0] not in ('seq', 'cseq', 'tuple'):
+                    out.append(env)
+                    continue
+                r = self.set_len(env, test.id, '>=' if truth else '==', 1 if truth else 0)
+                if r is not None:
+                    out.append(r)
+            return out
+        if t is ast.Compare and len(test.ops) == 1 and type(test.ops[0]) in OPS:
+            op = OPS[type(test.ops[0])]
+            if not truth:
+                op = NEG[op]
+            left, right = test.left, test.comparators[0]
+            for a, b, o in ((left, right, op), (right, left, FLIP[op])):
+                name = self.len_of_name(a)
+                if name is not None:
+                    out = []
+                    for env in envs:
+                        k = self.const_int(ctx, b, env)
+                        if k is None:
+                            # len(v) == K + <host number >= 0>  implies  len(v) >= K
+                            if o == '==' and isinstance(b, ast.BinOp) and isinstance(b.op, ast.Add):
+                                kk = self.const_int(ctx, b.left, env)
+                                if isinstance(kk, int) and self.nonneg_host_number(b.right):
+                                    r = self.set_len(env, name, '>=', kk)
+                                    if r is not None:
+                                        out.append(r)
+                                    continue
+                            out.append(env)
+                            continue
+                        r = self.set_len(env, name, o, k)
+                        if r is not None:
+                            out.append(r)
+                    return out
+                # <host number >= 0> == len(v) - K   implies   len(v) >= K
+                if o == '==' and isinstance(b, ast.BinOp) and isinstance(b.op, ast.Sub) and self.nonneg_host_number(a):
+                    name = self.len_of_name(b.left)
+                    if name is not None:
+                        out = []
+                        for env in envs:
+                            k = self.const_int(ctx, b.right, env)
+                            r = self.set_len(env, name, '>=', k) if isinstance(k, int) else env
+                            if r is not None:
+                                out.append(r)
+                        return out
+            return envs
+        if t is ast.Call and dotted(test.func) == 'isinstance' and len(test.args) == 2 and isinstance(test.args[0], ast.Name) \
+                and dotted(test.args[1]) == 'int':
+            name, out = test.args[0].id, []
+            for env in envs:
+                d = env.get(name)
+                if d is None:
+                    out.append(env)
+                elif d[0] == 'ios':
+                    e2 = dict(env)
+                    e2[name] = INT if truth else ('seq', d[1], d[2])
+                    out.append(e2)
+                elif (d[0] == 'int') == truth:
+                    out.append(env)
+            return out
+        return envs
+
+    # ---- implicit raise sites
+    def site(self, ctx, node, what, classes, safe):
+        """an operation on host data that raises implicitly unless `safe`"""
+        if safe:
+            self.proven += 1
+            return SKIP
+        where = '%s:%d' % (ctx.modname, node.lineno)
+        msg = '%s.py:%d %s (%s) in %s' % (ctx.modname, node.lineno, what, '/'.join(classes), ctx.qual)
+        if msg not in self.unproven:
+            self.unproven.append(msg)
+        return ('Prim', 'implicit %s@%s' % (what, where), list(classes))
+
+    def subscript_site(self, ctx, e, envs):
+        if not envs or isinstance(e.slice, ast.Slice) or not isinstance(e.ctx, ast.Load):
+            return SKIP
+        ds = [self.desc(ctx, e.value, env) for env in envs]
+        if all(d is None for d in ds):
+            return SKIP
+        ok, classes = True, ['IndexError']
+        for env, d in zip(envs, ds):
+            if d is None:
+                continue
+            if d[0] in ('int', 'ios', 'frameobj'):
+                ok, classes = False, ['IndexError', 'TypeError']
+                continue
+            i = self.const_int(ctx, e.slice, env)
+            lo = seqlen(d)[0]
+            if not isinstance(i, int):
+                if d[0] == 'seq':
+                    ok = False           # host data indexed by something the extractor cannot evaluate
+                continue
+            if not isinstance(lo, int) or not (lo > i if i >= 0 else lo >= -i):
+                ok = False
+        return self.site(ctx, e, 'subscript', classes, ok)
+
+    def unpack_site(self, ctx, e, envs):
+        """struct.unpack(fmt, <host data>)"""
+        import struct as _struct
+        if not envs or len(e.args) != 2:
+            return SKIP
+        ds = [self.desc(ctx, e.args[1], env) for env in envs]
+        if all(d is None for d in ds):
+            return SKIP
+        fmt = e.args[0]
+        size = None
+        if isinstance(fmt, ast.Constant) and isinstance(fmt.value, str):
+            try:
+                size = _struct.calcsize(fmt.value)
+            except _struct.error:
+                size = None
+        ok = size is not None and all(d is not None and d[0] in ('seq', 'cseq', 'tuple') and seqlen(d) == (size, size) for d in ds)
+        return self.site(ctx, e, 'struct.unpack', ['StructError'], ok)
+
+    def tuple_unpack_site(self, ctx, node, k, ds):
+        if all(d is None for d in ds):
+            return SKIP
+        ok, classes = True, ['ValueError']
+        for d in ds:
+            if d is None:
+                continue
+            if d[0] in ('int', 'ios', 'frameobj'):
+                ok, classes = False, ['ValueError', 'TypeError']
+            elif seqlen(d) != (k, k):
+                ok = False
+        return self.site(ctx, node, 'tuple unpacking', classes, ok)
+
+    def iter_site(self, ctx, node, it, envs):
+        ds = [self.desc(ctx, it, env) for env in envs]
+        if any(d is not None and d[0] in ('int', 'ios') for d in ds):
+            return self.site(ctx, node, 'iteration', ['TypeError'], False)
+        if any(d is not None for d in ds):
+            self.proven += 1
+        return SKIP
+
+    # ================================================================ expressions: the calls they make, in evaluation order
+    def eff(self, ctx, e, envs):
         if e is None:
             return SKIP
         t = type(e)
         if t in (ast.Constant, ast.Name):
             return SKIP
         if t is ast.Attribute:
-            return self.eff(ctx, e.value)
+            return self.eff(ctx, e.value, envs)
         if t is ast.Subscript:
-            return seq(self.eff(ctx, e.value), self.eff(ctx, e.slice))
+            return seq(self.eff(ctx, e.value, envs), self.eff(ctx, e.slice, envs), self.subscript_site(ctx, e, envs))
         if t is ast.Slice:
-            return seq(self.eff(ctx, e.lower), self.eff(ctx, e.upper), self.eff(ctx, e.step))
+            return seq(self.eff(ctx, e.lower, envs), self.eff(ctx, e.upper, envs), self.eff(ctx, e.step, envs))
         if t is ast.BinOp:
-            return seq(self.eff(ctx, e.left), self.eff(ctx, e.right))
+            return seq(self.eff(ctx, e.left, envs), self.eff(ctx, e.right, envs))
         if t is ast.UnaryOp:
-            return self.eff(ctx, e.operand)
+            return self.eff(ctx, e.operand, envs)
         if t is ast.Compare:
-            return seq(self.eff(ctx, e.left), *[self.eff(ctx, c) for c in e.comparators])
+            return seq(self.eff(ctx, e.left, envs), *[self.eff(ctx, c, envs) for c in e.comparators])
         if t is ast.BoolOp:
-            out = self.eff(ctx, e.values[-1])
-            for v in reversed(e.values[:-1]):
-                out = seq(self.eff(ctx, v), choice(SKIP, out))
+            conj = isinstance(e.op, ast.And)
+            parts, cur = [], envs
+            for v in e.values:
+                parts.append(self.eff(ctx, v, cur))
+                cur = self.refine(ctx, v, cur, conj)
+            out = parts[-1]
+            for p in reversed(parts[:-1]):
+                out = seq(p, choice(SKIP, out))
             return out
         if t is ast.IfExp:
-            return seq(self.eff(ctx, e.test), choice(self.eff(ctx, e.body), self.eff(ctx, e.orelse)))
+            return seq(self.eff(ctx, e.test, envs),
+                       choice(self.eff(ctx, e.body, self.refine(ctx, e.test, envs, True)),
+                              self.eff(ctx, e.orelse, self.refine(ctx, e.test, envs, False))))
         if t in (ast.Tuple, ast.List, ast.Set):
-            return seq(*[self.eff(ctx, x) for x in e.elts])
+            return seq(*[self.eff(ctx, x, envs) for x in e.elts])
         if t is ast.Dict:
-            return seq(*[seq(self.eff(ctx, k), self.eff(ctx, v)) for k, v in zip(e.keys, e.values)])
+            return seq(*[seq(self.eff(ctx, k, envs), self.eff(ctx, v, envs)) for k, v in zip(e.keys, e.values)])
         if t is ast.Starred:
-            return self.eff(ctx, e.value)
+            return self.eff(ctx, e.value, envs)
         if t is ast.JoinedStr:
-            return seq(*[self.eff(ctx, v) for v in e.values])
+            return seq(*[self.eff(ctx, v, envs) for v in e.values])
         if t is ast.FormattedValue:
-            return self.eff(ctx, e.value)
+            return self.eff(ctx, e.value, envs)
         if t in (ast.ListComp, ast.GeneratorExp, ast.SetComp):
-            inner = self.eff(ctx, e.elt)
+            # loop variables are elements, not host sequences
+            bound = set()
+            for g in e.generators:
+                bound |= {n.id for n in ast.walk(g.target) if isinstance(n, ast.Name)}
+            inner_envs = [dict((k, v) for k, v in env.items() if k not in bound) for env in envs]
+            inner = self.eff(ctx, e.elt, inner_envs)
             for g in reversed(e.generators):
-                inner = seq(self.eff(ctx, g.iter), ('Loop', seq(*([self.eff(ctx, c) for c in g.ifs] + [inner]))))
+                inner = seq(self.eff(ctx, g.iter, envs), self.iter_site(ctx, g.iter, g.iter, envs),
+                            ('Loop', seq(*([self.eff(ctx, c, inner_envs) for c in g.ifs] + [inner]))))
             return inner
         if t is ast.Call:
-            return self.call(ctx, e)
+            return self.call(ctx, e, envs)
         raise SkelError('%s:%d: expression %s not supported' % (ctx.modname, getattr(e, 'lineno', 0), t.__name__))
 
-    def args_eff(self, ctx, e):
-        return seq(*([self.eff(ctx, a) for a in e.args] + [self.eff(ctx, k.value) for k in e.keywords]))
+    def args_eff(self, ctx, e, envs):
+        return seq(*([self.eff(ctx, a, envs) for a in e.args] + [self.eff(ctx, k.value, envs) for k in e.keywords]))
 
-    def call(self, ctx, e):
+    def arg_descs(self, ctx, e, node, envs, method=True):
+        """descriptors of the arguments of call e for the parameters of FunctionDef node, joined over envs;
+        and the number of values that go to *args (None if unknown)"""
+        a = node.args
+        params = [p.arg for p in a.posonlyargs + a.args]
+        static = any(dotted(d) == 'staticmethod' for d in node.decorator_list)
+        if method and not static and params:
+            params = params[1:]
+
+        def jd(x):
+            out, first = None, True
+            for env in envs:
+                d = self.desc(ctx, x, env)
+                out = d if first else (join(out, d) if (out is not None and d is not None) else None)
+                first = False
+            return out
+        descs, nvar, i = {}, 0, 0
+        for x in e.args:
+            if isinstance(x, ast.Starred):
+                d = jd(x.value)
+                ln = seqlen(d) if d is not None and d[0] in ('seq', 'cseq', 'tuple') else None
+                if i >= len(params) and ln and ln[0] == ln[1] and isinstance(ln[0], int) and nvar is not None:
+                    nvar += ln[0]
+                else:
+                    nvar = None
+                i = len(params)
+                continue
+            if i < len(params):
+                descs[params[i]] = jd(x)
+                i += 1
+            elif nvar is not None:
+                nvar += 1
+        for k in e.keywords:
+            if k.arg is None:
+                return {}, None
+            descs[k.arg] = jd(k.value)
+        return descs, (nvar if a.vararg else None)
+
+    def resolved(self, ctx, e, envs, rec_fn, node, method=True):
+        descs, nvar = self.arg_descs(ctx, e, node, envs, method)
+        rec = rec_fn(descs)
+        ctx.callinfo[id(e)] = (rec[0], inst(rec[1], nvar), rec[2])
+        return ('Call', rec[0])
+
+    def call(self, ctx, e, envs):
         f = e.func
         d = dotted(f)
-        args = self.args_eff(ctx, e)
+        args = self.args_eff(ctx, e, envs)
         where = '%s:%d' % (ctx.modname, e.lineno)
         # super(Cls, self).m(...)
         if isinstance(f, ast.Attribute) and isinstance(f.value, ast.Call) and dotted(f.value.func) == 'super':
@@ -363,11 +965,11 @@ class Translator(object):
             r = self.w.method(ctx.selfkey, f.attr, after=ctx.defkey)
             if r is None:
                 raise SkelError(where + ': super().%s not found' % f.attr)
-            return seq(args, ('Call', self.want_method(ctx.selfkey, r[0], r[1])))
+            return seq(args, self.resolved(ctx, e, envs, lambda ds: self.method_rec(ctx.selfkey, r[0], r[1], ds), r[1]))
         # method call on the result of another call / subscript: x(...).m(...), x[..].m(...)
         if d is None:
             if isinstance(f, ast.Attribute):
-                recv = self.eff(ctx, f.value)
+                recv = self.eff(ctx, f.value, envs)
                 if f.attr == 'decode':
                     rd = dotted(f.value.func) if isinstance(f.value, ast.Call) else None
                     if ('*', rd) in PURE_DECODE:
@@ -385,45 +987,50 @@ class Translator(object):
                 r = self.w.method(self.devkey, m)
                 if r is None:
                     raise SkelError(where + ': device method %s not found' % m)
-                c = ('Call', self.want_method(self.devkey, r[0], r[1]))
+                c = ('Call', self.method_rec(self.devkey, r[0], r[1])[0])
                 out = c if out is None else choice(out, c)
             return seq(args, out)
         if d in PRIM_DOTTED:
             return seq(args, ('Prim', d + '@' + where, PRIM_DOTTED[d]))
+        if d in ('unpack', 'struct.unpack'):
+            return seq(args, self.unpack_site(ctx, e, envs))
         if d in PURE_DOTTED or d in PURE_FUNCS:
             return args
         parts = d.split('.')
-        # exception class instantiation (argument of raise, handled there) or other class of the module
         if self.is_exc_class(ctx, f):
-            return args
+            return seq(args, self.exc_init(ctx, e, envs))
         mod = self.w.mods[ctx.modname]
         if len(parts) == 1:
             if d in mod.funcs:
-                return seq(args, ('Call', self.want_function(ctx.modname, mod.funcs[d])))
+                node = mod.funcs[d]
+                return seq(args, self.resolved(ctx, e, envs, lambda ds: self.function_rec(ctx.modname, node, ds), node, False))
             if d in mod.classes:
                 init = self.w.method((ctx.modname, d), '__init__')
                 if init is None:
                     return args
-                return seq(args, ('Call', self.want_method((ctx.modname, d), init[0], init[1])))
+                c = self.resolved(ctx, e, envs, lambda ds: self.method_rec((ctx.modname, d), init[0], init[1], ds), init[1])
+                info = ctx.callinfo[id(e)]
+                ctx.callinfo[id(e)] = (info[0], FRAMEOBJ if (ctx.modname, d) == ('rcs380', 'Frame') else None, info[2])
+                return seq(args, c)
             raise SkelError(where + ': call of unknown name %s' % d)
         if parts[0] == 'self':
             if len(parts) == 2:
                 r = self.w.method(ctx.selfkey, parts[1])
                 if r is None:
                     raise SkelError(where + ': method self.%s not found' % parts[1])
-                return seq(args, ('Call', self.want_method(ctx.selfkey, r[0], r[1])))
+                return seq(args, self.resolved(ctx, e, envs, lambda ds: self.method_rec(ctx.selfkey, r[0], r[1], ds), r[1]))
             if len(parts) == 3 and parts[1] == 'chipset':
                 if self.chipkey is None:
                     raise SkelError(where + ': driver without chipset calls self.chipset')
                 r = self.w.method(self.chipkey, parts[2])
                 if r is None:
                     raise SkelError(where + ': chipset method %s not found' % parts[2])
-                return seq(args, ('Call', self.want_method(self.chipkey, r[0], r[1])))
+                return seq(args, self.resolved(ctx, e, envs, lambda ds: self.method_rec(self.chipkey, r[0], r[1], ds), r[1]))
             if len(parts) == 3 and parts[1] == 'device' and ctx.qual == 'Frontend.exchange':
                 r = self.w.method(self.devkey, parts[2])
                 if r is None:
                     raise SkelError(where + ': device method %s not found' % parts[2])
-                return seq(args, ('Call', self.want_method(self.devkey, r[0], r[1])))
+                return seq(args, self.resolved(ctx, e, envs, lambda ds: self.method_rec(self.devkey, r[0], r[1], ds), r[1]))
             if len(parts) == 3 and parts[1] in SELF_DATA_ATTRS and parts[2] in PURE_METHODS:
                 return args
             raise SkelError(where + ': call %s not classified' % d)
@@ -431,12 +1038,23 @@ class Translator(object):
         if parts[0] not in MODULE_NAMES and len(parts) >= 2:
             m = parts[-1]
             if m == 'decode':
-                if (ctx.qual, '.'.join(parts[:-1])) in PURE_DECODE:
+                if (ctx.qual.split('#')[0], '.'.join(parts[:-1])) in PURE_DECODE:
                     return args
                 return seq(args, ('Prim', 'bytes.decode@' + where, ['UnicodeDecodeError']))
             if m in PURE_METHODS:
                 return args
         raise SkelError(where + ': call %s not classified' % d)
+
+    def exc_init(self, ctx, e, envs):
+        """constructor of an exception class defined in the module (rcs380.CommunicationError unpacks its argument)"""
+        d = dotted(e.func)
+        mod = self.w.mods[ctx.modname]
+        if d in mod.classes:
+            key = (ctx.modname, d)
+            for n in mod.classes[d].body:
+                if isinstance(n, ast.FunctionDef) and n.name == '__init__':
+                    return self.resolved(ctx, e, envs, lambda ds: self.analyse('%s.%s.__init__' % key, ctx.modname, None, key, n, ds), n)
+        return SKIP
 
     def is_exc_class(self, ctx, node):
         d = dotted(node)
@@ -486,10 +1104,46 @@ class Translator(object):
                 return {v.value: k.value for k, v in zip(n.value.keys, n.value.values)}
         raise SkelError('rcs380.CommunicationError.err2str not found')
 
-    # ---- statements
-    def body(self, ctx, stmts):
-        # nested function definitions and aliases first (they may be used before their textual position
-        # only after definition in Python, but registering early is harmless)
+    # ================================================================ statements
+    def assigned_names(self, stmts):
+        """names whose value or length may change inside the statements"""
+        out = set()
+        for s in ast.walk(ast.Module(body=list(stmts), type_ignores=[])):
+            if isinstance(s, (ast.Assign, ast.AugAssign, ast.AnnAssign, ast.For, ast.Delete, ast.With)):
+                tg = s.targets if isinstance(s, (ast.Assign, ast.Delete)) else \
+                    ([s.target] if not isinstance(s, ast.With) else [i.optional_vars for i in s.items if i.optional_vars])
+                for x in tg:
+                    for n in ast.walk(x):
+                        if isinstance(n, ast.Name):
+                            out.add(n.id)
+            if isinstance(s, ast.Call) and isinstance(s.func, ast.Attribute) and s.func.attr in MUTATORS \
+                    and isinstance(s.func.value, ast.Name):
+                out.add(s.func.value.id)
+            if isinstance(s, ast.ExceptHandler) and s.name:
+                out.add(s.name)
+        return out
+
+    def widen(self, envs, names):
+        out = []
+        for env in envs:
+            e2 = {}
+            for k, v in env.items():
+                if k in names:
+                    if v is not None and v[0] in ('cseq', 'tuple'):
+                        e2[k] = ('cseq', 0, None)
+                    elif v is not None and v[0] == 'seq':
+                        e2[k] = ('seq', 0, None)
+                    elif v is not None and v[0] == 'ios':
+                        e2[k] = ('ios', 0, None)
+                    elif v is not None:
+                        e2[k] = TOPSEQ
+                else:
+                    e2[k] = v
+            out.append(e2)
+        return norm(out)
+
+    def body(self, ctx, stmts, envs):
+        # nested function definitions and aliases first
         for s in stmts:
             if isinstance(s, ast.FunctionDef):
                 q = ctx.qual + '.<locals>.' + s.name
@@ -498,65 +1152,157 @@ class Translator(object):
                     self.funcs[q] = None
                     sub = FuncCtx(self, ctx.modname, ctx.selfkey, ctx.defkey, q, s)
                     sub.nested = dict(ctx.nested)
-                    self.funcs[q] = self.body(sub, s.body)
+                    self.funcs[q] = self.body(sub, s.body, [{}])[0]
         for s in ast.walk(ast.Module(body=list(stmts), type_ignores=[])):
             if isinstance(s, ast.Assign) and len(s.targets) == 1 and isinstance(s.targets[0], ast.Name):
                 d = dotted(s.value)
                 if d and d.startswith('self.device.') and d.count('.') == 2:
                     ctx.aliases.setdefault(s.targets[0].id, set()).add(d.split('.')[2])
-        return seq(*[self.stmt(ctx, s) for s in stmts])
+        return self.body2(ctx, stmts, envs)
 
-    def stmt(self, ctx, s):
+    def body2(self, ctx, stmts, envs):
+        out = []
+        for s in stmts or []:
+            sk, envs = self.stmt(ctx, s, envs)
+            out.append(sk)
+        return seq(*out), envs
+
+    def assign(self, ctx, node, target, value_descs, envs):
+        """bind target in every environment; returns (skeleton of implicit sites, envs)"""
+        if isinstance(target, ast.Name):
+            out = []
+            for env, d in zip(envs, value_descs):
+                e2 = dict(env)
+                if d is None:
+                    e2.pop(target.id, None)
+                else:
+                    e2[target.id] = d
+                out.append(e2)
+            return SKIP, out
+        if isinstance(target, (ast.Tuple, ast.List)):
+            if any(isinstance(x, ast.Starred) for x in target.elts):
+                sk = self.site(ctx, node, 'starred unpacking', ['ValueError'], all(d is None for d in value_descs))
+                names = {n.id for n in ast.walk(target) if isinstance(n, ast.Name)}
+                return sk, [dict((k, v) for k, v in env.items() if k not in names) for env in envs]
+            k = len(target.elts)
+            sk = self.tuple_unpack_site(ctx, node, k, value_descs)
+            for i, x in enumerate(target.elts):
+                ds = [(d[1][i] if (d is not None and d[0] == 'tuple' and len(d[1]) == k) else None) for d in value_descs]
+                s2, envs = self.assign(ctx, node, x, ds, envs)
+                sk = seq(sk, s2)
+            return sk, envs
+        # attribute / subscript stores: nothing tracked
+        return SKIP, envs
+
+    def stmt(self, ctx, s, envs):
         t = type(s)
         where = '%s:%d' % (ctx.modname, s.lineno)
         if t is ast.FunctionDef:
-            return SKIP
+            return SKIP, envs
         if t is ast.Expr:
-            return self.eff(ctx, s.value)
+            sk = self.eff(ctx, s.value, envs)
+            v = s.value
+            if isinstance(v, ast.Call):
+                info = ctx.callinfo.get(id(v))
+                if info is not None and info[2]:
+                    return sk, []                      # the callee never returns (it always raises)
+                if isinstance(v.func, ast.Attribute) and v.func.attr in MUTATORS and isinstance(v.func.value, ast.Name):
+                    envs = self.widen(envs, {v.func.value.id})
+            return sk, envs
         if t is ast.Assign:
             if len(s.targets) == 1 and isinstance(s.targets[0], ast.Name) and s.targets[0].id in ctx.aliases \
                     and (dotted(s.value) or '').startswith('self.device.'):
-                return SKIP
-            return seq(self.eff(ctx, s.value), *[self.eff(ctx, x) for x in s.targets])
+                return SKIP, envs
+            sk = self.eff(ctx, s.value, envs)
+            ds = [self.desc(ctx, s.value, env) for env in envs]
+            for tg in s.targets:
+                sk = seq(sk, self.eff(ctx, tg, envs))
+                s2, envs = self.assign(ctx, s, tg, ds, envs)
+                sk = seq(sk, s2)
+            return sk, norm(envs)
         if t is ast.AugAssign:
-            return seq(self.eff(ctx, s.value), self.eff(ctx, s.target))
-        if t in (ast.Pass, ast.Delete, ast.Global, ast.Nonlocal):
-            return SKIP
+            sk = seq(self.eff(ctx, s.value, envs), self.eff(ctx, s.target, envs))
+            names = {n.id for n in ast.walk(s.target) if isinstance(n, ast.Name)} if isinstance(s.target, ast.Name) else set()
+            return sk, self.widen(envs, names)
+        if t is ast.Delete:
+            out = envs
+            for tg in s.targets:
+                if isinstance(tg, ast.Subscript) and isinstance(tg.value, ast.Name) and isinstance(tg.slice, ast.Slice):
+                    name, new = tg.value.id, []
+                    for env in out:
+                        d = env.get(name)
+                        if d is None:
+                            new.append(env)
+                            continue
+                        a = 0 if tg.slice.lower is None else self.const_int(ctx, tg.slice.lower, env)
+                        b = None if tg.slice.upper is None else self.const_int(ctx, tg.slice.upper, env)
+                        ln = seqlen(d)
+                        e2 = dict(env)
+                        kind = d[0] if d[0] in ('seq', 'cseq') else 'seq'
+                        if ln and a == 0 and isinstance(b, int) and b >= 0 and tg.slice.step is None and 'N' not in ln:
+                            e2[name] = (kind, max(0, ln[0] - b), None if ln[1] is None else max(0, ln[1] - b))
+                        else:
+                            e2[name] = (kind, 0, ln[1] if (ln and ln[1] != 'N') else None)
+                        new.append(e2)
+                    out = norm(new)
+                else:
+                    out = self.widen(out, {n.id for n in ast.walk(tg) if isinstance(n, ast.Name)})
+            return SKIP, out
+        if t in (ast.Pass, ast.Global, ast.Nonlocal):
+            return SKIP, envs
         if t is ast.Return:
-            return seq(self.eff(ctx, s.value), ('Return',))
+            sk = self.eff(ctx, s.value, envs)
+            for env in envs:
+                ctx.rets.append(self.desc(ctx, s.value, env) if s.value is not None else None)
+            return seq(sk, ('Return',)), []
         if t in (ast.Break, ast.Continue):
-            return ('Break',)
+            return ('Break',), []
         if t is ast.Assert:
             self.assumptions.append('assert at %s.py:%d holds (argument precondition)' % (ctx.modname, s.lineno))
-            return seq(self.eff(ctx, s.test), ('Prim', 'assert@' + where, []))
+            sk = seq(self.eff(ctx, s.test, envs), ('Prim', 'assert@' + where, []))
+            return sk, self.refine(ctx, s.test, envs, True)
         if t is ast.If:
             if ctx.handler_names and self.mentions(s.test, ctx.handler_names[-1]):
                 et, neg = self.errno_test(ctx, s.test, ctx.handler_names[-1])
-                a, b = self.body2(ctx, s.body), self.body2(ctx, s.orelse)
-                return ('IfErrno', et, b, a) if neg else ('IfErrno', et, a, b)
+                a, ea = self.body2(ctx, s.body, envs)
+                b, eb = self.body2(ctx, s.orelse, envs)
+                return (('IfErrno', et, b, a) if neg else ('IfErrno', et, a, b)), norm(ea + eb)
             for nm in ctx.handler_names[:-1]:
                 if self.mentions(s.test, nm):
                     raise SkelError(where + ': test on an outer handled exception')
-            return seq(self.eff(ctx, s.test), choice(self.body2(ctx, s.body), self.body2(ctx, s.orelse)))
+            tsk = self.eff(ctx, s.test, envs)
+            a, ea = self.body2(ctx, s.body, self.refine(ctx, s.test, envs, True))
+            b, eb = self.body2(ctx, s.orelse, self.refine(ctx, s.test, envs, False))
+            return seq(tsk, choice(a, b)), norm(ea + eb)
         if t is ast.While:
-            loop = ('Loop', seq(self.eff(ctx, s.test), self.body2(ctx, s.body)))
-            return seq(loop, self.eff(ctx, s.test), self.body2(ctx, s.orelse))
+            names = self.assigned_names(s.body)
+            entry = self.widen(envs, names)
+            tsk = self.eff(ctx, s.test, entry)
+            b, eb = self.body2(ctx, s.body, self.refine(ctx, s.test, entry, True))
+            after = norm(entry + self.widen(eb, names))        # also reached through break
+            o, eo = self.body2(ctx, s.orelse, after)
+            return seq(('Loop', seq(tsk, b)), tsk, o), (eo if s.orelse else after)
         if t is ast.For:
-            return seq(self.eff(ctx, s.iter), ('Loop', self.body2(ctx, s.body)), self.body2(ctx, s.orelse))
+            names = self.assigned_names(s.body) | {n.id for n in ast.walk(s.target) if isinstance(n, ast.Name)}
+            isk = seq(self.eff(ctx, s.iter, envs), self.iter_site(ctx, s.iter, s.iter, envs))
+            entry = self.widen(envs, names)
+            inner = [dict((k, v) for k, v in env.items() if k not in
+                          {n.id for n in ast.walk(s.target) if isinstance(n, ast.Name)}) for env in entry]
+            b, eb = self.body2(ctx, s.body, inner)
+            after = norm(entry + self.widen(eb, names))
+            o, eo = self.body2(ctx, s.orelse, after)
+            return seq(isk, ('Loop', b), o), (eo if s.orelse else after)
         if t is ast.With:
             if len(s.items) == 1 and dotted(s.items[0].context_expr) == 'self.lock' and s.items[0].optional_vars is None:
-                return self.body2(ctx, s.body)
+                return self.body2(ctx, s.body, envs)
             raise SkelError(where + ': with-statement not supported')
         if t is ast.Raise:
-            return self.raise_(ctx, s)
+            return self.raise_(ctx, s, envs), []
         if t is ast.Try:
-            return self.try_(ctx, s)
+            return self.try_(ctx, s, envs)
         raise SkelError(where + ': statement %s not supported' % t.__name__)
 
-    def body2(self, ctx, stmts):
-        return seq(*[self.stmt(ctx, x) for x in stmts]) if stmts else SKIP
-
-    def raise_(self, ctx, s):
+    def raise_(self, ctx, s, envs):
         where = '%s:%d' % (ctx.modname, s.lineno)
         if s.cause is not None:
             raise SkelError(where + ': raise ... from not supported')
@@ -573,16 +1319,17 @@ class Translator(object):
                 lit = no
             else:
                 lit = 0          # these classes carry no errno
-            return seq(self.args_eff(ctx, s.exc), ('Raise', c, lit))
+            return seq(self.args_eff(ctx, s.exc, envs), self.exc_init(ctx, s.exc, envs), ('Raise', c, lit))
         if self.is_exc_class(ctx, s.exc):
             c = self.exc_class(ctx, s.exc)
             return ('Raise', c, 0 if c not in ('ChipsetError', 'RcsCommunicationError', 'RcsStatusError', 'IOError') else None)
         raise SkelError(where + ': raise of something that is not a known exception class')
 
-    def try_(self, ctx, s):
-        where = '%s:%d' % (ctx.modname, s.lineno)
-        body = self.body2(ctx, s.body)
-        hs = []
+    def try_(self, ctx, s, envs):
+        body, ebody = self.body2(ctx, s.body, envs)
+        names = self.assigned_names(s.body)
+        hentry = self.widen(envs, names)
+        hs, hout = [], []
         for h in s.handlers:
             if h.type is None:
                 pat = sorted(CLASSES)
@@ -595,23 +1342,27 @@ class Translator(object):
                         pat += sorted(CLASSES)
                     else:
                         pat += with_subclasses(self.exc_class(ctx, ty))
-            if h.name:
-                ctx.handler_names.append(h.name)
-            else:
-                ctx.handler_names.append('<anonymous handler>')
+            ctx.handler_names.append(h.name or '<anonymous handler>')
             try:
-                hb = self.body2(ctx, h.body)
+                hb, eh = self.body2(ctx, h.body, hentry)
             finally:
                 ctx.handler_names.pop()
             hs.append((pat, hb))
+            hout += eh
         out = ('Try', body, hs) if hs else body
+        after = norm(ebody + hout)
         if s.orelse:
             # else-clause: runs after the body completed normally; sequencing it after the whole
             # Try adds behaviours (it would also run after a handler that falls through) - sound for escapes
-            out = seq(out, self.body2(ctx, s.orelse))
+            o, eo = self.body2(ctx, s.orelse, norm(ebody + hout))
+            out = seq(out, o)
+            after = eo
         if s.finalbody:
-            out = ('Finally', out, self.body2(ctx, s.finalbody))
-        return out
+            allnames = names | self.assigned_names(s.orelse) | self.assigned_names([x for h in s.handlers for x in h.body])
+            f, ef = self.body2(ctx, s.finalbody, norm(self.widen(envs, allnames) + after))
+            out = ('Finally', out, f)
+            after = self.widen(after, self.assigned_names(s.finalbody)) if after else []
+        return out, after
 
 
 # ---------------------------------------------------------------- Coq output
@@ -655,14 +1406,21 @@ def extract(repo):
     """returns {driver: {function: stmt}}, assumptions, digests"""
     world = World(repo)
     progs, assumptions = {}, []
+    IMPLICIT['unproven'], IMPLICIT['proven'] = [], 0
     for name, devkey, chipkey in DRIVERS:
         tr = Translator(world, name, devkey, chipkey)
         progs[name] = tr.run()
         for a in tr.assumptions:
             if a not in assumptions:
                 assumptions.append(a)
+        for u in tr.unproven:
+            IMPLICIT['unproven'].append('%s: %s' % (name, u))
+        IMPLICIT['proven'] += tr.proven
     digests = {m: hashlib.sha1(world.mods[m].src.encode()).hexdigest()[:12] for m in MODULES}
     return progs, assumptions, digests
+
+
+IMPLICIT = {'unproven': [], 'proven': 0}
 
 
 def generate(repo):
@@ -672,7 +1430,11 @@ def generate(repo):
            '   ASSUMPTIONS (explicit, see module docstring of the extractor):']
     out += ['     - ' + a for a in assumptions]
     out += ['     - .decode() of hexlify() output and of the datagram built in udp.Device._send_data cannot fail',
-            '     - implicit exceptions of Python operations are not represented *)',
+            '     - implicit exceptions: only subscript / unpacking / struct.unpack / iteration on host data are represented',
+            '   IMPLICIT-RAISE SITES on host data proved safe by a recognised guard: %d' % IMPLICIT['proven'],
+            '   IMPLICIT-RAISE SITES NOT PROVED SAFE (each is a Prim that raises): %d' % len(IMPLICIT['unproven'])] + \
+        ['     ! ' + u for u in IMPLICIT['unproven']] + [
+            '*)',
             'From Coq Require Import ZArith List String.',
             'From NV Require Import Skel.ExnSyntax.',
             'Import ListNotations.',
